@@ -132,6 +132,40 @@ def run(R):
                 nit += 1
     R.floor("C05-R5", "iterations over rule components", nit, 10)
 
+    # ---- R6 delta feeds every premise position / every rule
+    R.rule("C05-R6", "delta discipline: inside the per-position / per-rule loops of the semi-naive strategies the join against "
+                     "last round's facts (delta) runs on every iteration (no conditional skip of a position or rule)")
+    nd = 0
+    for x in sorted(scope.values(), key=lambda v: v.key):
+        for c in x.calls():
+            if c.key not in prog.bodies:
+                continue
+            darg = None
+            for a in c.args:
+                r = x.alias_root(a)
+                if r is None:
+                    o = x.origin(a, stop_named=True)
+                    r = o[1]["l"] if o[0] == "place" else None
+                nm = x.local_name(r) if r is not None else None
+                if nm and nm.startswith("delta"):
+                    darg = nm
+            if darg is None:
+                continue
+            lps = x.loops_containing(c.bb)
+            if not lps:
+                continue
+            nd += 1
+            h, body = min(lps, key=lambda v: len(v[1]))
+            # can an iteration complete (return to the header) without executing the delta join?
+            starts = [s2 for s2 in x.succ(h) if s2 in body]
+            outside = set(x.reachable_blocks()) - set(body)
+            reach = x.reach_from(starts, avoid={c.bb} | outside) if c.bb != h else set()
+            skip = h in reach
+            R.ob("C05-R6", "delta-unconditional:%s:%s" % (short(x), c.name()), "%s joins `%s` on every iteration of its loop (call %s)"
+                 % (x.pretty, darg, c.name()), not skip, where=x.where(c.ln),
+                 detail=None if not skip else "a premise position / rule that is skipped is never fed with newly derived facts")
+    R.floor("C05-R6", "delta joins inside loops", nd, 3)
+
     # ---- R3
     wc = "shared::rule_index::WILDCARD"
     users = set()
